@@ -404,9 +404,14 @@ def generate(rng, tier):
                 if len(axes) >= 2 and rng.random() < 0.5:
                     # two axes whose names differ in case only
                     a, b = rng.choice([("lat", "Lat"), ("x", "X"), ("ETA", "eta"), ("k", "K")])
+                    taken = set(rho.values()) | {a, b}
                     for nm_ in list(rho):
                         if rho[nm_] in (a, b) and nm_ not in axes[:2]:
-                            rho[nm_] = rho[nm_] + "_"
+                            new = rho[nm_] + "_"
+                            while new in taken:         # keep the renaming injective
+                                new += "_"
+                            taken.add(new)
+                            rho[nm_] = new
                     rho[axes[0]], rho[axes[1]] = a, b
             elif w == "overlap_ufunc":
                 o = {"what": w}
